@@ -35,6 +35,11 @@ structure Shadow where
   curNew  : Nat := 0                       -- current allocators of the three families (setCurrent…Allocator)
   curArr  : Nat := 1
   curMal  : Nat := 2
+  -- the switch position of the global overloads, as the interface documents it: on / off, saveAndDisable nests
+  ovOn    : Bool := true
+  ovSaved : Bool := true
+  ovDepth : Nat := 0
+  stash   : Option (Nat × Nat × Nat) := none      -- GlobalMemoryAllocatorStash: (new, new[], malloc) at the last save
 deriving Inhabited
 
 /-- which records a period query sees, as documented: `all` everything, `disabled`/`checking` the records
@@ -106,20 +111,64 @@ def specStep (sh : Shadow) (o : Proto.Op) : Except String Shadow := do
         if isLive sh r then throw s!"environment: the allocator returned the live address {r}"
         pure { sh with live := newRec sh r (size.toNat?.getD 0) file (line.toNat?.getD 0) (ai.toNat?.getD 0) :: sh.live,
                        nextNum := sh.nextNum + 1 }
+    | ["ov", "off"] => pure { sh with ovOn := false }
+    | ["ov", "plain"] => pure { sh with ovOn := true }
+    | ["ov", "threadsafe"] => pure { sh with ovOn := true }
+    | ["ov", "save"] =>
+      -- saveAndDisableNewDeleteOverloads nests: only the outermost call saves the position and switches off
+      if sh.ovDepth == 0 then pure { sh with ovDepth := 1, ovSaved := sh.ovOn, ovOn := false }
+      else pure { sh with ovDepth := sh.ovDepth + 1 }
+    | ["ov", "restore"] =>
+      if sh.ovDepth == 0 then throw "environment: restoreNewDeleteOverloads without a matching saveAndDisableNewDeleteOverloads"
+      else if sh.ovDepth == 1 then pure { sh with ovDepth := 0, ovOn := sh.ovSaved }
+      else pure { sh with ovDepth := sh.ovDepth - 1 }
+    | ["overloads", _] => pure { sh with ovOn := true }
+    | ["stash", "save"] => pure { sh with stash := some (sh.curNew, sh.curArr, sh.curMal) }
+    | ["stash", "restore"] =>
+      match sh.stash with
+      | some (n, a, m) => pure { sh with curNew := n, curArr := a, curMal := m }
+      | none => pure sh
+    -- registry entries 0, 1, 2 are defaultNewAllocator(), defaultNewArrayAllocator(), defaultMallocAllocator()
+    | ["setcur-default", "new"] => pure { sh with curNew := 0 }
+    | ["setcur-default", "newarray"] => pure { sh with curArr := 1 }
+    | ["setcur-default", "malloc"] => pure { sh with curMal := 2 }
+    | ["setcur", "new", "null"] => pure { sh with curNew := 0 }
+    | ["setcur", "newarray", "null"] => pure { sh with curArr := 1 }
+    | ["setcur", "malloc", "null"] => pure { sh with curMal := 2 }
     | ["gacq", form, size, file, line] => do
-      -- a block acquired through any form of an overload is held with the allocator kind of the form's family;
+      -- with the overloads switched off nothing is allocated THROUGH the detector: the outstanding set stays as it is
+      -- otherwise a block acquired through any form of an overload is held with the allocator kind of the form's family;
       -- the forms without file/line are recorded at <unknown>:0
       let some r := retOf obs | throw "gacq: no result"
-      if r == 0 then pure sh
+      if !sh.ovOn then pure sh
+      else if r == 0 then pure sh
       else
         if isLive sh r then throw s!"environment: the allocator returned the live address {r}"
         let loc := form == "new_fi" || form == "new_fs" || form == "newa_fi" || form == "newa_fs" || form == "malloc"
         pure { sh with live := newRec sh r (size.toNat?.getD 0) (if loc then file else "<unknown>")
                                  (if loc then line.toNat?.getD 0 else 0) (curOf sh form) :: sh.live,
                        nextNum := sh.nextNum + 1 }
+    | ["grealloc", addr, size, file, line] => do
+      -- cpputest_realloc_location: as reallocMemory with the current malloc allocator; nothing with the overloads off
+      let a := addr.toNat?.getD 0
+      let some r := retOf obs | throw "grealloc: no result"
+      if !sh.ovOn then pure sh
+      else if a != 0 && !isLive sh a then
+        if !hasFail obs "nonallocated" then throw s!"reallocating {a}, which is not outstanding, was not reported as non-allocated"
+        if r != 0 then throw "realloc of an unknown block returned memory"
+        pure sh
+      else
+        if hasFail obs "nonallocated" then throw s!"reallocating the outstanding block {a} was reported as non-allocated"
+        if r == 0 then pure sh
+        else
+          let rest := sh.live.filter (·.addr != a)
+          if rest.any (·.addr == r) then throw s!"environment: realloc returned the live address {r}"
+          pure { sh with live := newRec sh r (size.toNat?.getD 0) file (line.toNat?.getD 0) sh.curMal :: rest,
+                         nextNum := sh.nextNum + 1 }
     | ["grel", _, addr, _, _] => do
       let a := addr.toNat?.getD 0
-      if a == 0 then
+      if !sh.ovOn then pure sh       -- the pointer goes to the platform free; the harness only lets untracked blocks through
+      else if a == 0 then
         if obs.any (fun l => l.head? == some "fail") then throw "releasing NULL was reported"
         pure sh
       else if isLive sh a then
@@ -161,7 +210,6 @@ def specStep (sh : Shadow) (o : Proto.Op) : Except String Shadow := do
     | ["setcur", "new", ai] => pure { sh with curNew := ai.toNat?.getD 0 }
     | ["setcur", "newarray", ai] => pure { sh with curArr := ai.toNat?.getD 0 }
     | ["setcur", "malloc", ai] => pure { sh with curMal := ai.toNat?.getD 0 }
-    | ["overloads", _] => pure sh
     | ["free", _, addr, _, _, _] => do
       let a := addr.toNat?.getD 0
       if a == 0 then
